@@ -26,6 +26,8 @@ func runC02(c *an.Ctx) {
 	r02e(c)
 	r02f(c)
 	r02h(c)
+	// shared with C12: a target that could not be reached or did not answer must appear in the aggregated answer as an error
+	r12f(c)
 }
 
 // transitionDos returns the `do` methods of all implementers of environment.Transition.
